@@ -35,10 +35,27 @@ TYPES = {
     'std::variant<QXmpp::Private::C2sStreamManager::NoRequest,QXmpp::Private::C2sStreamManager::ResumeRequest,QXmpp::Private::C2sStreamManager::EnableRequest>': 'sm_request',
     'QXmpp::Private::C2sStreamManager::ResumeRequest': 'ResumeRequest', 'ResumeRequest': 'ResumeRequest',
     'QXmppPromise<void>': 'vpromise_id', 'QXmppTask<void>': 'vtask_id',
+    # call sites in QXmppOutgoingClient (handleElement, handleStanza)
+    'std::unique_ptr<QXmppOutgoingClientPrivate>': 'QXmppOutgoingClientPrivate*',
+    'QXmpp::Private::OutgoingIqManager': 'OutgoingIqManager', 'OutgoingIqManager': 'OutgoingIqManager',
+    'QXmpp::Private::HandleElementResult': 'int', 'HandleElementResult': 'int',
+    'QXmppStreamFeatures': 'QXmppStreamFeatures',
+    'std::variant<StreamErrorElement,QXmppError>': 'StreamErrVariant', 'std::variant<QXmpp::Private::StreamErrorElement,QXmppError>': 'StreamErrVariant',
+    'QXmpp::Private::StreamErrorElement': 'StreamErrorElement', 'StreamErrorElement': 'StreamErrorElement',
+    'typename remove_reference<StreamErrorElement>::type': 'StreamErrorElement',
+    'add_pointer_t<QXmpp::Private::StreamErrorElement>': 'StreamErrorElement*', 'add_pointer_t<StreamErrorElement>': 'StreamErrorElement*',
+    'QXmppIq': 'QXmppIq', 'QXmppPresence': 'QXmppPresence', 'QXmppMessage': 'QXmppMessage',
+    'QXmppStanza::Error': 'StanzaError', 'QXmppIq::Type': 'int', 'QXmppStanza::Error::Type': 'int', 'QXmppStanza::Error::Condition': 'int',
 }
+# C++ classes whose objects are XMPP stanzas (isXmppStanza() overridden to true: QXmppIq.cpp, QXmppMessage.cpp, QXmppPresence.cpp;
+# the QXmppIq override is lowered and checked by the unit).  Everything else serialised with serializeXml(T) is a nonza.
+STANZA_CLASSES = {'QXmppIq': 'QXmppIq_isXmppStanza', 'QXmppMessage': None, 'QXmppPresence': None}
+NONZA_CLASSES = {'SmAck', 'SmRequest', 'SmResume'}
 CLASS_TYPES = {'QMapUP', 'QMapUP_it', 'QXmppPacket', 'WireBytes', 'XmppSocket', 'SmAck', 'SmRequest', 'OptSmAck', 'OptSmRequest',
                'SendTuple', 'StreamAckManager', 'QXmppOutgoingClient', 'C2sStreamManager', 'SmResumed',
-               'SmResume', 'SmEnabled', 'OptSmResume', 'Sasl2Authenticate', 'Sasl2StreamFeature'}
+               'SmResume', 'SmEnabled', 'OptSmResume', 'Sasl2Authenticate', 'Sasl2StreamFeature',
+               'QXmppOutgoingClientPrivate', 'OutgoingIqManager', 'QXmppStreamFeatures', 'StreamErrVariant', 'StreamErrorElement',
+               'QXmppIq', 'QXmppPresence', 'QXmppMessage', 'StanzaError'}
 
 
 def member_ret(cname, ctype):
@@ -72,7 +89,7 @@ def it_arrow(lw, node, args):
 def from_dom(lw, node, args):
     """static SmAck::fromDom / SmRequest::fromDom, told apart by the (resolved) return type"""
     t = lw.ntype(lw.skip(node))
-    cname = {'OptSmAck': 'SmAck_fromDom', 'OptSmRequest': 'SmRequest_fromDom'}.get(t)
+    cname = {'OptSmAck': 'SmAck_fromDom', 'OptSmRequest': 'SmRequest_fromDom', 'StreamErrVariant': 'StreamErrorElement_fromDom'}.get(t)
     if cname is None:
         raise Unsupported('fromDom returning %s' % t)
     lw.repo_callees.add(cname)
@@ -85,11 +102,34 @@ def serialize_xml(lw, node, args):
     a = lw.skip(node['inner'][1])
     t = lw.ntype(a)
     fn = {'SmAck': 'serializeXml_SmAck', 'SmRequest': 'serializeXml_SmRequest', 'SmResume': 'serializeXml_SmResume'}.get(t)
+    if fn is None and t in STANZA_CLASSES:
+        # serializeXml(<stanza object>): bytes of a stanza that is NOT the data() of a packet the ack manager was given
+        fn = 'serializeXml_rawStanza'
+        lw.fire('serializeXml<stanza class %s>' % t)
     if fn is None:
         raise Unsupported('serializeXml of %s' % t)
     tmp = lw.newtmp()
     lw.pre.append('WireBytes %s; %s(&%s, %s);' % (tmp, fn, tmp, args[0]))
     return tmp
+
+
+def packet_from_nonza(lw, n, target):
+    """QXmppPacket(const QXmppNonza &, QXmppPromise = {}): data = serializeXml(nonza), isXmppStanza = nonza.isXmppStanza()
+    (virtual; decided here by the STATIC class of a by-value object, anything else is refused), promise = a new one"""
+    a = lw.skip(n['inner'][0])
+    t = lw.ntype(a)
+    if a.get('kind') != 'DeclRefExpr' or t not in STANZA_CLASSES or qt(a).strip().endswith('&'):
+        raise Unsupported('QXmppPacket built from %s %s' % (a.get('kind'), qt(a)))
+    isfn = STANZA_CLASSES[t]
+    if isfn is None:
+        raise Unsupported('QXmppPacket built from a %s (isXmppStanza of that class is not lowered by this unit)' % t)
+    lw.repo_callees.add(isfn)
+    dst = target
+    if not dst:
+        dst = lw.newtmp()
+        lw.pre.append('QXmppPacket %s;' % dst)
+    lw.pre.append('QXmppPacket_fromNonza(&%s, %s(%s));' % (dst, isfn, lw.addr(a)))
+    return dst
 
 
 def std_move(lw, node, args):
@@ -181,7 +221,7 @@ class C09Lowerer(Lowerer):
 
 def profile():
     return opaque_profile(
-        pure_fns={'holds_alternative'},
+        pure_fns={'holds_alternative', 'socket', 'configuration', 'streamSecurityMode', 'isEncrypted'},
         field_rules={'ResumeRequest::p': 'gh_request_promise'},
         types=TYPES,
         class_types=CLASS_TYPES,
@@ -223,14 +263,45 @@ def profile():
             'StreamAckManager::handleAcknowledgement/1': ('callee', 'StreamAckManager_handleAcknowledgement'),
             'StreamAckManager::enableStreamManagement/1': ('callee', 'StreamAckManager_enableStreamManagement'),
             # C2sStreamManager: q->streamAckManager() is the getter of the client's one StreamAckManager
-            'QXmppOutgoingClient::streamAckManager/0': ('expr', '{0}->ack'),
-            'QXmppOutgoingClient::xmppSocket/0': ('expr', '{0}->sock'),
+            'QXmppOutgoingClient::streamAckManager/0': ('expr', '{0}->d->streamAckManager'),
+            'QXmppOutgoingClient::xmppSocket/0': ('expr', '{0}->d->socket'),
             'StreamAckManager::lastIncomingSequenceNumber/0': ('callee', 'StreamAckManager_lastIncomingSequenceNumber'),
             'C2sStreamManager::setResumeAddress/1': ('callee', 'C2sStreamManager_setResumeAddress'),
             'expr:InitListExpr:SmResume': init_aggregate('SmResume'),
             'op=:OptSmResume:SmResume': ('expr', '{v0}.has = true, {v0}.v = {v1}'),
             'op=:sm_request:ResumeRequest': ('expr', '{v0} = SMREQ_RESUME'),
             'vpromise_id::task/0': ('expr', '(vtask_id){0}'),
+            # ---- call sites in QXmppOutgoingClient::handleElement / handleStanza (units/C09/callsite_model.h)
+            'op->:QXmppOutgoingClientPrivate*': ('arg', 0),
+            'QXmppOutgoingClient::iqManager/0': ('expr', '{0}->d->iqManager'),
+            'StreamAckManager::handleStanza/1': ('expr', 'cs_sam_handleStanza({0}, {1})'),
+            'StreamAckManager::send/1': ('expr', 'cs_sam_send({0}, {1})'),
+            'OutgoingIqManager::handleStanza/1': ('expr', 'cs_oim_handleStanza({0}, {1})'),
+            'QXmppOutgoingClient::handleStanza/1': ('expr', 'cs_fallback_handleStanza({0}, {1})'),
+            'QXmppOutgoingClient::elementReceived/2': ('expr', 'cs_elementReceived({1}, &{2})'),
+            'QXmppOutgoingClient::handleStreamFeatures/1': ('expr', 'cs_handleStreamFeatures({0}, {1})'),
+            'QXmppOutgoingClient::handleStreamError/1': ('expr', 'cs_handleStreamError({0}, {1})'),
+            'QSslSocket::isEncrypted/0': ('const', 'gh_link_encrypted'),
+            '*::streamSecurityMode/0': ('const', 'gh_cfg_security_mode'),
+            'fn:isStreamFeatures/1': ('callee', 'QXmppStreamFeatures_isStreamFeatures'),
+            'ctor:QXmppStreamFeatures()': ('zero',),
+            'QXmppStreamFeatures::parse/1': ('callee', 'QXmppStreamFeatures_parse'),
+            'fn:get_if/1': ('fn', 'StreamErrVariant_getIf0'),
+            'ctor:QXmppIq()': ('fn', 'QXmppIq_ctor0'),
+            'ctor:QXmppIq(int)': ('fn', 'QXmppIq_ctor'),
+            'ctor:QXmppPresence()': ('zero',),
+            'ctor:QXmppMessage()': ('zero',),
+            'ctor:StanzaError(int,int)': ('fn', 'StanzaError_ctor2'),
+            'QXmppIq::setId/1': ('fn', 'QXmppIq_setId'),
+            'QXmppIq::setTo/1': ('fn', 'QXmppIq_setTo'),
+            'QXmppIq::setError/1': ('fn', 'QXmppIq_setError'),
+            'QXmppIq::parse/1': ('callee', 'QXmppIq_parse'),
+            'QXmppPresence::parse/1': ('callee', 'QXmppPresence_parse'),
+            'QXmppMessage::parse/1': ('callee', 'QXmppMessage_parse'),
+            'ctor:QXmppPacket(QXmppIq)': packet_from_nonza,
+            '*::iqReceived/1': ('expr', 'cs_signal()'),
+            '*::presenceReceived/1': ('expr', 'cs_signal()'),
+            '*::messageReceived/1': ('expr', 'cs_signal()'),
             # socket and nonzas
             'XmppSocket::sendData/1': ('fn', 'XmppSocket_sendData'),
             'fn:serializeXml/1': serialize_xml,
